@@ -34,19 +34,87 @@ type effSel struct {
 type effSite struct {
 	Ins  ssa.Instruction
 	Slot string
+	// Chain: when the effect lies inside transparent helpers (functions outside the rule vocabulary, typically
+	// extracted from the anchor function): the call instructions leading from the anchor function down to the
+	// function that holds Ins (outermost first). Empty for an effect in the anchor function itself.
+	Chain []ssa.CallInstruction
+}
+
+// frameChecker builds the guard checker for the function holding a (possibly nested) site, with the helper's
+// parameters expressed in the vocabulary of the anchor function.
+func frameChecker(r *core.Run, anchor *ssa.Function, chain []ssa.CallInstruction, upto int) *guard.Checker {
+	fn := anchor
+	var subst []string
+	for i := 0; i < upto; i++ {
+		call := chain[i]
+		h := call.Common().StaticCallee()
+		if h == nil {
+			break
+		}
+		res := r.Resolver(fn)
+		ns := make([]string, len(h.Params))
+		for j, a := range call.Common().Args {
+			if j < len(ns) {
+				t := normT(res.Of(a).String())
+				if len(subst) > 0 {
+					t = guard.SubstParams(t, subst)
+				}
+				ns[j] = t
+			}
+		}
+		subst = ns
+		fn = h
+	}
+	return &guard.Checker{P: r.P, Fn: fn, Res: r.Resolver(fn), Subst: subst}
+}
+
+// mustPassDeep: the clause holds at the site if it is established on every path to the site inside the function
+// that holds it, or on every path to the call that leads there in one of the enclosing frames.
+func mustPassDeep(r *core.Run, anchor *ssa.Function, s effSite, atoms []guard.Atom) (bool, []string) {
+	var firstW []string
+	for lvl := len(s.Chain); lvl >= 0; lvl-- {
+		ck := frameChecker(r, anchor, s.Chain, lvl)
+		var blk *ssa.BasicBlock
+		if lvl == len(s.Chain) {
+			blk = s.Ins.Block()
+		} else {
+			blk = s.Chain[lvl].Block()
+		}
+		ok, w := ck.MustPass(blk, atoms)
+		if ok {
+			return true, nil
+		}
+		if firstW == nil {
+			firstW = w
+		}
+	}
+	return false, firstW
 }
 
 // selectEffects finds the effect instructions of a rule inside fn.
 func selectEffects(r *core.Run, fn *ssa.Function, sel effSel) []effSite {
+	cnt := map[string]int{}
+	return selectEffectsIn(r, fn, sel, nil, cnt, 0)
+}
+
+func selectEffectsIn(r *core.Run, fn *ssa.Function, sel effSel, chain []ssa.CallInstruction, cnt map[string]int, depth int) []effSite {
 	res := r.Resolver(fn)
 	var out []effSite
-	cnt := map[string]int{}
 	add := func(ins ssa.Instruction, slot string) {
 		cnt[slot]++
 		if cnt[slot] > 1 {
 			slot = fmt.Sprintf("%s#%d", slot, cnt[slot])
 		}
-		out = append(out, effSite{ins, slot})
+		out = append(out, effSite{Ins: ins, Slot: slot, Chain: append([]ssa.CallInstruction{}, chain...)})
+	}
+	// a call of a transparent helper is not an effect by name: its own effects are (in the caller's context)
+	descend := func(x ssa.CallInstruction) bool {
+		h := x.Common().StaticCallee()
+		if h == nil || depth >= 3 || !r.P.Transparent(h) || h == fn {
+			return false
+		}
+		out = append(out, selectEffectsIn(r, h, sel, append(append([]ssa.CallInstruction{}, chain...), x), cnt, depth+1)...)
+		return true
 	}
 	want := set(sel.Calls...)
 	var storeGlobs []interface{ MatchString(string) bool }
@@ -60,6 +128,9 @@ func selectEffects(r *core.Run, fn *ssa.Function, sel effSel) []effSite {
 				name, callees := term.CalleeName(r.P, x.Common())
 				if want[name] {
 					add(ins, "call "+name)
+					continue
+				}
+				if descend(x) {
 					continue
 				}
 				if sel.AllWrites {
@@ -161,11 +232,10 @@ func evalGuard(r *core.Run, id, fnName string, sel effSel, clauses []clause, min
 		r.Undecide(id, core.Key(id, fnName, "effects"), r.P.FuncPos(fn), fmt.Sprintf("vacuous: rule expects at least %d effect sites in %s, found %d (callee renamed or effect removed): the rule cannot be evaluated", min, fnName, len(sites)))
 		return
 	}
-	ck := &guard.Checker{P: r.P, Fn: fn, Res: r.Resolver(fn)}
 	for _, s := range sites {
 		for _, c := range clauses {
 			key := core.Key(id, fnName, s.Slot, c.Name)
-			ok, w := ck.MustPass(s.Ins.Block(), c.Atoms)
+			ok, w := mustPassDeep(r, fn, s, c.Atoms)
 			var ds []string
 			for _, a := range c.Atoms {
 				ds = append(ds, a.Desc)
@@ -384,16 +454,15 @@ func evalGuardBranch(r *core.Run, id, fnName string, when guard.Atom, branch str
 	if fn == nil {
 		return
 	}
-	ck := &guard.Checker{P: r.P, Fn: fn, Res: r.Resolver(fn)}
 	n := 0
 	for _, s := range selectEffects(r, fn, effSel{AllWrites: true}) {
-		if ok, _ := ck.MustPass(s.Ins.Block(), []guard.Atom{when}); !ok {
+		if ok, _ := mustPassDeep(r, fn, s, []guard.Atom{when}); !ok {
 			continue
 		}
 		n++
 		for _, c := range clauses {
 			key := core.Key(id, fnName, branch+" branch: "+s.Slot, c.Name)
-			ok, w := ck.MustPass(s.Ins.Block(), c.Atoms)
+			ok, w := mustPassDeep(r, fn, s, c.Atoms)
 			var ds []string
 			for _, a := range c.Atoms {
 				ds = append(ds, a.Desc)
